@@ -47,6 +47,7 @@ struct MMock {
   int id = 0, kind = 0;
   bool alive = true;
   int watched = -1;
+  bool moved_to = false;  // created by moving another mock
   std::vector<int> active[NFN];     // newest first
   std::vector<int> saturated[NFN];  // in order of saturation
 };
